@@ -42,6 +42,8 @@ pub(crate) fn start_flusher_thread(
     builder.spawn(move || {
         let (_sender, receiver): (Sender<()>, Receiver<()>) = channel();
         loop {
+            #[cfg(flexi_logger_verif)]
+            crate::verif_hooks::sync_op(crate::verif_hooks::Op::Tick("flusher"));
             receiver.recv_timeout(flush_interval).ok();
             primary_writer.flush().ok();
             for w in other_writers.values() {
@@ -67,6 +69,11 @@ pub(crate) fn start_async_stdwriter(
             )
             .spawn(move || {
                 loop {
+                    #[cfg(flexi_logger_verif)]
+                    crate::verif_hooks::sync_op(crate::verif_hooks::Op::Recv(
+                        "std_chan",
+                        crate::verif_hooks::id_of(&t_pool),
+                    ));
                     match receiver.recv() {
                         Err(_) => break,
                         Ok(mut message) => {
@@ -97,6 +104,10 @@ pub(crate) fn start_async_stdwriter(
                             }
                             if message.capacity() <= msg_capa {
                                 message.clear();
+                                #[cfg(flexi_logger_verif)]
+                                crate::verif_hooks::sync_op(crate::verif_hooks::Op::Point(
+                                    "std_pool_push",
+                                ));
                                 t_pool.push(message).ok();
                             }
                         }
